@@ -8,7 +8,7 @@ from harness.treelib import TreeEnv, call_term, out_term, walk_invariants, RefMa
 from harness.props.c01 import gen_history
 
 PROPS_FILE = "Props/C04.v"
-MODEL_FILES = ["Model/RTree.v", "Model/TreeRun.v", "Model/Persist.v", "Model/PersistRun.v"]
+MODEL_FILES = ["Model/RTree.v", "Model/TreeRun.v", "Model/Persist.v", "Model/PersistSpec.v", "Model/PersistRun.v"]
 RULE = ("call histories on a BTree/TreeSet stored through a data manager (harness/minijar.py), cut into "
         "transactions at random points (commit or abort after any call, three serialisation orders), a fresh "
         "reader after every commit; after every call the registered and read-current sets are compared with the "
@@ -266,7 +266,7 @@ def run(ctx):
         import os
         open(os.path.join(os.path.dirname(os.path.dirname(os.path.dirname(os.path.abspath(__file__)))), "replay", "C04_case_%d.txt" % i), "w").write(terms[i])
         ctx.corr_mismatch("Persist model vs implementation", {"family": m[0], "kind": m[1], "impl": m[2], "sizes": [m[4], m[5]], "order": m[6],
-                                                              "first_disagreeing_step": stepno, "step": (stepsrc[stepno] if stepno is not None and stepno < len(stepsrc) else None),
+                                                              "first_disagreeing_step": stepno, "case_file": "replay/C04_case_%d.txt" % i, "step": (stepsrc[stepno] if stepno is not None and stepno < len(stepsrc) else None),
                                                               "previous_step": (stepsrc[stepno - 1] if stepno else None), "calls": m[7][: (stepno or 0) + 1]})
     ctx.cov["commits"] = ncommits
 
